@@ -1933,7 +1933,11 @@ def _trans_and_rec_time_Markovian_const_trans_(node, sus_neighbors, tau, rec_rat
     commented out the more "sophisticated" approach.
     '''
     
-    duration = random.expovariate(rec_rate_fxn(node))
+    rec_rate = rec_rate_fxn(node)
+    if rec_rate > 0:
+        duration = random.expovariate(rec_rate)
+    else: #a node with recovery weight 0 never recovers
+        duration = float('Inf')
 
         
     trans_prob = 1-np.exp(-tau*duration)
